@@ -68,6 +68,12 @@ var vTemplates = [...]struct{ pre, post string }{
 	55: {"REGISTER sip:a SIP/2.0\r\nm:*", "\r\nExpires: 0\r\n\r\n"},        // after the star contact
 	56: {"SIP/2.0 200 O", "f:a\r\n\r\n"},                                  // end of a reply line
 	57: {"SIP/2.0 200 O", "X"},
+	// name-addr values (no message around them)
+	58: {"\"a", "\" <b>;q=0.5\r\nX"},
+	59: {"<a>;expires=1", ", <b>\r\nX"},
+	60: {"a <b>;tag=x", ";y=z\r\nX"},
+	61: {"<b>;", "=v;lr\r\nX"},
+	62: {"\"x\" <", ">;tag=t , <c>\r\nX"},
 }
 
 // vTpl builds template t with a window of w symbolic bytes.
